@@ -683,6 +683,8 @@ class Parser:
                 if ident == 'void':
                     return model.void_type, quals
                 if ident == '__dotdotdot__':
+                    if typenode.coord is None:
+                        raise FFIError('bad usage of "..."')
                     raise FFIError(':%d: bad usage of "..."' %
                             typenode.coord.line)
                 tp0, quals0 = resolve_common_type(self, ident)
